@@ -160,6 +160,11 @@ def check_c03(chk, prog, sim):
                                                   "Terminal Getter<%s> %s: %s %s" % (which, case, leaf.kind, leaf.info.get("msg")), site=K.leaf_site(leaf))
                                     ok = False
                                     continue
+                                ta = K.time_arith(leaf)
+                                if ta:
+                                    chk.violation("C03.terminal", key + ":time-arithmetic", "Terminal Getter<%s> %s does integer arithmetic on timestamps (%s %s %s) instead of comparing them: overflows for near-extreme timestamps"
+                                                  % ((which, case) + tuple(ta[0])), fn=fn["pretty"])
+                                    ok = False
                                 g = K.classify_output(sim, leaf.state, leaf.value)
                                 if which == "State":
                                     cands = [Sym("tsa")] * own_s + [Sym("tsb")] * (partner and ps)
